@@ -2,6 +2,7 @@ package html
 
 import (
 	"io"
+	"sync"
 
 	"github.com/elliotchance/gedcom/v39"
 	"github.com/elliotchance/gedcom/v39/html/core"
@@ -124,10 +125,23 @@ func (c *PublishHeader) WriteHTMLTo(w io.Writer) (int64, error) {
 	).WriteHTMLTo(w)
 }
 
-var surnames = gedcom.NewStringSet()
+// The surnames are needed by the header of every page so they are only
+// collected once, but they belong to one document. They must not be reused for
+// the next document that is published by the same process.
+var (
+	surnamesMutex    sync.Mutex
+	surnamesDocument *gedcom.Document
+	surnames         *gedcom.StringSet
+)
 
 func getSurnames(document *gedcom.Document) *gedcom.StringSet {
-	if surnames.Len() == 0 {
+	surnamesMutex.Lock()
+	defer surnamesMutex.Unlock()
+
+	if surnames == nil || surnamesDocument != document {
+		surnames = gedcom.NewStringSet()
+		surnamesDocument = document
+
 		for _, individual := range document.Individuals() {
 			surname := individual.Name().Surname()
 			if surname != "" {
